@@ -217,7 +217,7 @@ func c20(x *mon.Ctx) {
 		for k := 1; k < n && len(probs) == 0; k++ {
 			gap := r.attempts[k] - r.attempts[k-1] - c.slowFailure // start-to-start minus the time the failing attempt itself took
 			if gap > c.cap+slack {
-				if calm {
+				if calm || gap-c.cap-slack > 8*r.late+slack { // far beyond anything the observed timer lateness explains
 					probs = append(probs, fmt.Sprintf("waited %v between attempts %d and %d, the maximum retry delay is %v", gap, k-1, k, c.cap))
 				} else {
 					mu.Lock()
@@ -246,7 +246,7 @@ func c20(x *mon.Ctx) {
 				probs = append(probs, "an error was returned together with response data")
 			}
 			if r.ret > c.timeout+c.cap+c.slowFailure+slack {
-				if calm {
+				if calm || r.ret-(c.timeout+c.cap+c.slowFailure+slack) > 8*r.late+slack {
 					probs = append(probs, fmt.Sprintf("gave up after %v; timeout %v + one retry delay %v", r.ret, c.timeout, c.cap))
 				} else {
 					mu.Lock()
